@@ -236,6 +236,10 @@ pub enum Rel {
   /// exactly one byte of the epoch (which=0) or measurement (which=1) changed
   ByteChange { which: u8, at: u16, delta: u8 },
   Unrelated { other: Triple },
+  /// two components trade places through an encoding of the threshold: the epoch (which even) or the
+  /// measurement (which odd) of one triple is the 4-byte LE / 4-byte BE / decimal text of the
+  /// other triple's threshold, and vice versa
+  TradePlaces { which: u8, other_t: u32 },
 }
 
 #[derive(Clone, Debug, Serialize, Deserialize)]
@@ -257,6 +261,7 @@ fn diff_strat(_t: Tier) -> BoxedStrategy<DiffCase> {
     1 => (0u8..2, 1u8..4).prop_map(|(which, n)| Rel::ZeroPad { which, n }),
     3 => (0u8..2, any::<u16>(), 1u8..=255).prop_map(|(which, at, delta)| Rel::ByteChange { which, at, delta }),
     2 => triple(200).prop_map(|other| Rel::Unrelated { other }),
+    2 => (0u8..6, prop_oneof![3 => 1u32..9, 1 => any::<u32>()]).prop_map(|(which, other_t)| Rel::TradePlaces { which, other_t }),
   ];
   (triple(300), rel).prop_map(|(tr, rel)| DiffCase { tr, rel }).boxed()
 }
@@ -338,6 +343,22 @@ fn related(c: &DiffCase) -> (Triple, Triple, &'static str) {
       (a2, b, if *which == 0 { "epoch-one-byte" } else { "measurement-one-byte" })
     }
     Rel::Unrelated { other } => (a, other.clone(), "unrelated"),
+    Rel::TradePlaces { which, other_t } => {
+      let t1 = a.t;
+      let t2 = if *other_t == t1 { t1.wrapping_add(1) } else { *other_t };
+      let enc = |t: u32| -> Hx {
+        Hx(match which / 2 {
+          0 => t.to_le_bytes().to_vec(),
+          1 => t.to_be_bytes().to_vec(),
+          _ => t.to_string().into_bytes(),
+        })
+      };
+      if which % 2 == 0 {
+        (Triple { m: a.m.clone(), e: enc(t2), t: t1 }, Triple { m: a.m.clone(), e: enc(t1), t: t2 }, "epoch-and-threshold-trade-places")
+      } else {
+        (Triple { m: enc(t2), e: a.e.clone(), t: t1 }, Triple { m: enc(t1), e: a.e.clone(), t: t2 }, "measurement-and-threshold-trade-places")
+      }
+    }
   }
 }
 
